@@ -9,6 +9,7 @@ only one runs at a time it is a total order consistent with the schedule.
 from __future__ import annotations
 
 import asyncio
+import dataclasses
 import queue as _queue
 import random
 
@@ -23,10 +24,40 @@ class StopRequest(Exception):
   """Exception handed to maybe_stop(exc)."""
 
 
+@dataclasses.dataclass(frozen=True)
+class FrozenNotesError(Exception):
+  """An immutable exception (frozen dataclass): every attribute assignment is refused,
+  hence BaseException.add_note(), which stores __notes__ with a plain setattr, raises
+  dataclasses.FrozenInstanceError."""
+  text: str = ''
+
+
+class ReadOnlyNotesError(Exception):
+  """An exception whose __notes__ is a read-only property that is not a list:
+  BaseException.add_note() raises TypeError."""
+
+  @property
+  def __notes__(self):
+    return ('read-only note',)
+
+
+# Input class: producer failures whose exception object cannot be decorated with a note.
+NOTES_REJECTING = ('FrozenNotesError', 'ReadOnlyNotesError')
+MECH_FAILURE_NOT_RECORDED_NOTES = 'producer-failure-not-recorded-when-exception-rejects-notes'
+
+
+def rejects_notes(case):
+  return bool(case.get('fault')) and case['fault'].get('exc') in NOTES_REJECTING
+
+
 def fault_exception(kind, text):
   """The exception a failing producer raises (fault['exc'], default InjectedError)."""
   if kind in (None, 'InjectedError'):
     return InjectedError(text)
+  if kind == 'FrozenNotesError':
+    return FrozenNotesError(text)
+  if kind == 'ReadOnlyNotesError':
+    return ReadOnlyNotesError(text)
   if kind == 'Empty':
     return _queue.Empty(text)
   if kind == 'QueueEmpty':
@@ -35,6 +66,19 @@ def fault_exception(kind, text):
     return _queue.Full(text)
   return {'TimeoutError': TimeoutError, 'KeyError': KeyError, 'ValueError': ValueError,
           'RuntimeError': RuntimeError, 'IndexError': IndexError}[kind](text)
+
+
+def exception_chain(e):
+  """Type names of the exceptions e chains (__cause__ / __context__), e excluded."""
+  names, seen, todo = [], {id(e)}, [e.__cause__, e.__context__]
+  while todo:
+    x = todo.pop(0)
+    if x is None or id(x) in seen or len(seen) > 20:
+      continue
+    seen.add(id(x))
+    names.append(type(x).__name__)
+    todo += [x.__cause__, x.__context__]
+  return names
 
 
 class FailingIterable:
@@ -157,6 +201,7 @@ def run_queue_case(case, watchdog_s=20.0):
   # retry after a TimeoutError, and pass-through tracing of the queue's steps.
   pnaps, cnaps = case.get('pnaps'), case.get('cnaps')
   retry = case.get('retry') or 0
+  away = bool(case.get('away'))
 
   def me():
     st = core.ACTIVE.me()
@@ -320,6 +365,14 @@ def run_queue_case(case, watchdog_s=20.0):
         ops += 1
         if cnaps and cnaps[c] != 'late' and ops <= cnaps[c]:
           nap()
+        if away:
+          # A consumer that is busy elsewhere between its queue operations (see
+          # away_variants): it only comes back once the producers need it (buffer full)
+          # or have all returned.  It is PARKED meanwhile (not runnable, not a timed wait).
+          log.append(('away', c))
+          core.ACTIVE.block(lambda: raw_full() or state['producers_ended'] >= P,
+                            f'consumer.away(C{c})')
+          log.append(('op', c, mode))
         m = mode
         was_exhausted = q.exhausted
         if mode == 'mixed':
@@ -403,6 +456,9 @@ def run_queue_case(case, watchdog_s=20.0):
     except core.SchedAbort:
       raise
     except BaseException as e:  # pylint: disable=broad-exception-caught
+      if rejects_notes(case):
+        # 'the original exception or an error chaining it'
+        log.append(('end_chain', c, exception_chain(e)))
       log.append(('end', c, 'exc', type(e).__name__, str(e)[:80]))
     finally:
       state['consumers_ended'] += 1
@@ -492,6 +548,9 @@ def analyse(case, sched, log):
         out.append(('producer_no_return', p))
   elif fault:
     # Every consumer that kept consuming ends with the producer's exception.
+    want_exc = {None: 'InjectedError', 'QueueEmpty': 'QueueEmpty'}.get(
+        fault.get('exc'), fault.get('exc'))
+    chains = {e[1]: e[2] for e in log if e[0] == 'end_chain'}
     for c in range(C):
       e = ends.get(c)
       if e is None:
@@ -500,8 +559,8 @@ def analyse(case, sched, log):
         pass
       elif e[2] == 'stop':
         out.append(('clean_end_after_failure', {'consumer': c}))
-      elif e[3] != {None: 'InjectedError', 'QueueEmpty': 'QueueEmpty'}.get(
-          fault.get('exc'), fault.get('exc')):
+      elif e[3] != want_exc and not (rejects_notes(case) and want_exc in chains.get(c, ())):
+        # (an exception that cannot carry a note may be reported by an error chaining it)
         out.append(('wrong_exception', e[1:]))
     for p in range(P):
       ended = [e for e in log if e[0] in ('prod_return', 'prod_raise') and e[1] == p]
@@ -534,6 +593,27 @@ def analyse(case, sched, log):
       elif ended[0][0] == 'prod_raise':
         out.append(('producer_raised_on_stop', ended[0][1:]))
   return out
+
+
+def classify_notes_fault(case, kind, log, info):
+  """Key of a violation in a case whose fault exception rejects notes (else None).
+
+  Input class (the generator injected an exception that refuses add_note) + recorded
+  evidence: the fault fired, the failing producer did not leave enqueue_from_iterator with
+  the injected exception but with a secondary error (or not at all), and the queue never
+  recorded a failure.  Anything else on these inputs keeps a generic key.
+  """
+  if not rejects_notes(case):
+    return None
+  fault = case['fault']
+  p = fault['p']
+  fired = any(e[0] == 'fail' and e[1] == p for e in log)
+  ended = [e for e in log if e[0] in ('prod_return', 'prod_raise') and e[1] == p]
+  secondary = (not ended) or (ended[0][0] == 'prod_raise' and ended[0][2] != fault['exc'])
+  unrecorded = info['queue'].exception is None
+  if fired and secondary and unrecorded:
+    return MECH_FAILURE_NOT_RECORDED_NOTES
+  return None
 
 
 # -- timing scenarios: sleeping threads, timeouts that fire mid-stream -------------
@@ -673,6 +753,63 @@ def analyse_timing(case, sched, log, info):
           'producer_ends': [list(e[:2]) for e in prod_end.values()],
           'queue_exception': None, 'residual_in_buffer': len(residual)}))
   return out
+
+
+# -- a consumer that stays away after ONE get_batch() freed several slots -------------
+
+MECH_GET_BATCH_WAKES_ONE = 'get-batch-frees-n-slots-wakes-one-producer'
+
+
+def away_variants(cfg, rng):
+  """'batch_then_away' variant of one configuration (see C04.gen_config).
+
+  Bounded buffer of 2-3 with a timeout, 2-4 registered producers with 2-4 elements each
+  (so that several of them block in put() on the full buffer), ONE consumer that only
+  dequeues through get_batch() (directly or through the iterator, which caches a batch)
+  and is away between its queue operations: it is parked until the buffer is full again
+  or every producer has returned.  No thread is ever starved for longer than it takes its
+  peers to run: a TimeoutError in such a run is spurious (fault-free oracle).
+  """
+  P = cfg['P'] if cfg['P'] >= 2 else rng.choice([2, 3])
+  cap = cfg['cap'] if cfg['cap'] >= 2 else rng.choice([2, 3])
+  flavour = cfg['flavour'] if cfg['flavour'] != 'simple' else rng.choice(['default', 'queue', 'asyncio'])
+  lens = [rng.randint(2, 4) for _ in range(P)]
+  return [dict(cfg, scn='batch_then_away', away=True, P=P, lens=lens, C=1, cap=cap,
+               flavour=flavour, preset=True, timeout=3.0, fault=None, stop=None,
+               ignore_error=False, trace_queue=True, retry=0,
+               modes=[rng.choice(['batch0', 'iter'])])]
+
+
+def away_evidence(case, log):
+  """A put() that timed out while the buffer had room, after a dequeue operation of the
+  (get_batch-only) consumer that had freed >= 2 slots at once; None if there is none."""
+  cap = case['cap']
+  for n, e in enumerate(log):
+    if e[0] != 'put_timeout':
+      continue
+    ops = [i for i, x in enumerate(log[:n]) if x[0] == 'op']
+    freed = sum(1 for x in log[ops[-1]:n] if x[0] == 'deq') if ops else 0
+    occ = _occupancy(log, n)
+    if occ < cap and freed >= 2:
+      return {'producer': e[1], 'element': list(e[2]), 'buffered': occ, 'capacity': cap,
+              'slots_freed_by_last_get_batch': freed}
+  return None
+
+
+def analyse_away(case, sched, log):
+  """Fault-free oracle (analyse) + key by input class and recorded evidence."""
+  problems = analyse(case, sched, log)
+  ev = away_evidence(case, log)
+  out = []
+  for kind, detail in problems:
+    mech = f'{case["scn"]}:queue-{kind}{deadlock_sites(kind, detail)}'
+    spurious_timeout = (
+        (kind == 'consumer_bad_end' and detail[2] == 'TimeoutError')
+        or kind in ('lost', 'producer_no_return'))
+    if ev and spurious_timeout:
+      mech = MECH_GET_BATCH_WAKES_ONE
+    out.append((kind, detail, mech))
+  return out, ev
 
 
 def deadlock_sites(kind, detail):
